@@ -306,6 +306,21 @@ pub fn sim_scenario(idx: usize, seed: u64) -> ScenarioResult {
             pending.push(("rpc P1->S".into(), spawn_rpc(peers[1].net.clone(), peers[1].idx, s_id, delay, hold, w.log.clone())));
             mix.push(if hold { "rpc-in-holding-networkref" } else { "rpc-in" });
         }
+        // calls that are in flight but NOT being polled when the shutdown comes (stragglers in a
+        // FuturesUnordered, the losing arm of a select!): polled once, then merely kept alive until
+        // the end of the scenario - whatever they hold must not keep the network's parts alive
+        let mut parked: Vec<std::pin::Pin<Box<dyn std::future::Future<Output = bool> + Send>>> = Vec::new();
+        for _ in 0..rng.gen_range(0..3) {
+            let (n, log, p0) = (s.net.clone(), w.log.clone(), peers[0].peer_id);
+            let delay = *[20_000u64, 5_000_000, NEVER].get(rng.gen_range(0..3)).unwrap();
+            let mut f: std::pin::Pin<Box<dyn std::future::Future<Output = bool> + Send>> = Box::pin(async move {
+                let spec = RpcSpec::simple(300, 4).with_script(Script { delay_us: delay, resp_len: 100, status: 200, nhdr: 0, seed: 9 });
+                world::rpc(&log, &n, s_idx, p0, &spec).await.1.is_ok()
+            });
+            let _ = futures::poll!(&mut f);
+            parked.push(f);
+            mix.push("rpc-out-parked-unpolled");
+        }
         if rng.gen_bool(0.6) {
             let n = s.net.clone();
             pending.push(("dial S->blackhole".into(), tokio::spawn(async move { n.connect("10.98.0.1:1".parse::<std::net::SocketAddr>().unwrap()).await.is_ok() })));
@@ -413,6 +428,7 @@ pub fn sim_scenario(idx: usize, seed: u64) -> ScenarioResult {
             for (_, h) in pending.drain(..) {
                 h.abort();
             }
+            parked.clear(); // they own handles too
             tokio::time::sleep(Duration::from_micros(10)).await;
         } else {
             match tokio::time::timeout(Duration::from_micros(bound_us + 30_000_000), s_sync.net.shutdown()).await {
@@ -556,6 +572,7 @@ pub fn sim_scenario(idx: usize, seed: u64) -> ScenarioResult {
         let sample = json!({"kind": "simulated shutdown", "scenario": idx, "seed": seed, "how": if by_drop {"drop last handle"} else {"shutdown()"},
             "shutdown_idle_timeout_ms": idle_ms, "offset_us": off_us, "in_flight": mix, "connected_before": connected_before.len(),
             "remote_listing_before": lists_s_before, "completed_after_us": shutdown_took});
+        drop(parked);
         w.close();
         let mut res = if !problems.is_empty() {
             let mut wit = sample;
